@@ -16,7 +16,7 @@ REACTIONS = {
     'r_gdelay': (['A'], [], 'massaction', {'k': 0.7}, 'gaussian', [], ['B'], {'mean': 0.3, 'std': 0.2}),
 }
 OPS = ['species', 'r_ma', 'r_hill', 'r_gen', 'r_delay', 'r_gdelay', 'param', 'rule', 'rule_dt', 'setp', 'sets', 'init', 'iface', 'iface_safe',
-       'sim_det', 'sim_ssa', 'sim_safe', 'sim_vol', 'sim_delay', 'sim_iface', 'seed']
+       'sim_det', 'sim_ssa', 'sim_safe', 'sim_vol', 'sim_delay', 'sim_iface', 'sim_iface_det', 'other_det', 'seed']
 
 
 class Shadow:
@@ -94,6 +94,13 @@ def apply(m, sh, op, ctx_state, c, case):
         ctx_state['iface_valid'] = True
     elif op == 'seed':
         br.py_seed_random(1234 + len(ctx_state['setp']))
+    elif op == 'other_det':
+        # an unrelated model is integrated in between (the ODE right-hand side goes through a module-level pointer)
+        from bioscrape.types import Model
+        other = Model(species=['Q'], reactions=[(['Q'], [], 'massaction', {'k': 3.0})], initial_condition_dict={'Q': 9.0})
+        with warnings.catch_warnings():
+            warnings.simplefilter('ignore')
+            py_simulate_model(TIMES, Model=other, stochastic=False, return_dataframe=False)
     elif op.startswith('sim'):
         unset0 = lambda d: {k: (0.0 if float(v) == -1.0 else float(v)) for k, v in d.items()}   # -1 is the 'never set' marker, defaulted to 0
         before = (unset0(m.get_species_dictionary()), dict(m.get_parameter_dictionary()))
@@ -101,10 +108,21 @@ def apply(m, sh, op, ctx_state, c, case):
               'sim_vol': dict(stochastic=True, volume=2.0), 'sim_delay': dict(stochastic=True, delay=True)}.get(op)
         with warnings.catch_warnings():
             warnings.simplefilter('ignore')
-            if op == 'sim_iface':
+            if op in ('sim_iface', 'sim_iface_det'):
                 if ctx_state.get('iface') is not None and ctx_state.get('iface_valid'):
                     ctx_state['iface'].py_set_dt(0.25)
-                    SSASimulator().py_simulate(ctx_state['iface'], TIMES)
+                    if op == 'sim_iface':
+                        SSASimulator().py_simulate(ctx_state['iface'], TIMES)
+                    else:
+                        from bioscrape.simulator import DeterministicSimulator
+                        ctx_state['iface'].py_prep_deterministic_simulation()
+                        r_ = DeterministicSimulator().py_simulate(ctx_state['iface'], TIMES)
+                        ref_ = py_simulate_model(TIMES, Model=sh.fresh(), stochastic=False, return_dataframe=False)
+                        a_, b_ = np.asarray(r_.py_get_result()), np.asarray(ref_.py_get_result())
+                        o_, f_ = m.get_species_list(), ref_ and sh.fresh().get_species_list()
+                        if a_.shape != b_.shape or not np.allclose(a_[:, [o_.index(s_) for s_ in sorted(o_)]], b_[:, [f_.index(s_) for s_ in sorted(f_)]], rtol=1e-9, atol=1e-9):
+                            c.violation('C08/history-dependent/kept-interface-det', 'deterministic simulation through the kept (still current) interface differs from a freshly '
+                                        'built model of the same definition', case)
             else:
                 py_simulate_model(TIMES, Model=m, return_dataframe=False, **kw)
         after = (unset0(m.get_species_dictionary()), dict(m.get_parameter_dictionary()))
@@ -194,7 +212,7 @@ def run(ctx):
     ctx.rule = ('E3: every operation sequence up to the length bound over {add species; add a mass-action / proportional-Hill (named parameters) / '
                 'general / fixed-delay / Gaussian-delay reaction; add a parameter; add a species-assigning repeated rule; add a dt counter rule (not idempotent); set a parameter; set a species value; '
                 'py_initialize; build and keep a plain / safe interface; simulate through py_simulate_model in deterministic, SSA, safe, volume '
-                'and delay mode; simulate through the kept interface while it is current; seed} is applied to a real Model while a shadow '
+                'and delay mode; simulate (SSA and deterministic) through the kept interface while it is current; integrate an unrelated model in between; seed} is applied to a real Model while a shadow '
                 'definition is maintained. After every history: seeded SSA / safe / volume / delay trajectories (2 seeds + a scripted stream), '
                 'the deterministic trajectory, dictionaries and both matrices must equal those of a model built at once from the shadow '
                 'definition (bit-equal; deterministic rounded to 1e-9); seeding and simulating twice must agree; the dictionaries read before '
